@@ -70,6 +70,22 @@ Section Naming.
             end
         end
     end.
+
+  (** The loop of DeploymentReconciler.Reconcile over the template's phases (:96-103), each phase with the chunks
+      its chunker returned; the slices created for one phase are there for the next. *)
+  Fixpoint chunk_phases (st : nstore) (phases : list (list C)) : nstore * option (list (list (N * N * bool))) :=
+    match phases with
+    | [] => (st, Some [])
+    | chunks :: r =>
+        match chunk_phase st chunks with
+        | (st1, None) => (st1, None)
+        | (st1, Some l) =>
+            match chunk_phases st1 r with
+            | (st2, Some ls) => (st2, Some (l :: ls))
+            | (st2, None) => (st2, None)
+            end
+        end
+    end.
 End Naming.
 Arguments eslice : clear implicits.
 Arguments nstore : clear implicits.
